@@ -26,6 +26,7 @@ type c01Replay struct {
 	Hex   string `json:"hex"`
 	Spare int    `json:"spare"` // parse: spare capacity
 	Fill  int    `json:"fill"`
+	Tail  string `json:"tail,omitempty"` // parse: the bytes of the un-truncated frame that lie in the spare capacity
 	Type  string `json:"type,omitempty"`
 }
 
@@ -149,17 +150,26 @@ func (st *c01State) reset() {
 }
 
 // c01ParseOne runs one input in the three capacity variants.
-func c01ParseOne(c *core.Ctx, st *c01State, name string, in []byte) {
-	c.Count("evaluations", 3)
-	c.Count("parse_calls", 3)
+func c01ParseOne(c *core.Ctx, st *c01State, name string, in []byte, tail []byte) {
 	type vv struct {
 		spare int
 		fill  byte
+		tail  bool
 	}
-	variants := []vv{{0, 0}, {64, 0x00}, {64, 0xff}}
-	var outs [3]parseOut
+	variants := []vv{{0, 0, false}, {64, 0x00, false}, {64, 0xff, false}}
+	if len(tail) > 0 {
+		// a read buffer that still holds the rest of a longer (well formed) frame behind the bytes just received
+		variants = append(variants, vv{len(tail), 0, true})
+	}
+	c.Count("evaluations", int64(len(variants)))
+	c.Count("parse_calls", int64(len(variants)))
+	outs := make([]parseOut, len(variants))
 	for i, v := range variants {
 		buf := variant(in, v.spare, v.fill)
+		if v.tail {
+			whole := append(append([]byte(nil), in...), tail...)
+			buf = whole[:len(in)]
+		}
 		outs[i] = runParse(st.session(), buf)
 		if outs[i].panicked != "" {
 			st.reset()
@@ -175,6 +185,9 @@ func c01ParseOne(c *core.Ctx, st *c01State, name string, in []byte) {
 	}
 	for i, o := range outs {
 		rp := c01Replay{Kind: "parse", Hex: hex.EncodeToString(in), Spare: variants[i].spare, Fill: int(variants[i].fill)}
+		if variants[i].tail {
+			rp.Tail = hex.EncodeToString(tail)
+		}
 		if o.panicked != "" {
 			site := o.panicked[strings.LastIndex(o.panicked, "@")+1:]
 			if strings.Contains(o.panicked, "budget exhausted") {
@@ -189,11 +202,14 @@ func c01ParseOne(c *core.Ctx, st *c01State, name string, in []byte) {
 			return
 		}
 	}
-	for i := 1; i < 3; i++ {
+	for i := 1; i < len(outs); i++ {
 		a, b := outs[0], outs[i]
 		a.hostIP, b.hostIP = "", ""
 		if a != b {
 			rp := c01Replay{Kind: "parse", Hex: hex.EncodeToString(in), Spare: variants[i].spare, Fill: int(variants[i].fill)}
+			if variants[i].tail {
+				rp.Tail = hex.EncodeToString(tail)
+			}
 			c.Violate("parse-capacity-dependence|"+diffField(a, b), fmt.Sprintf("Parse result depends on spare capacity (%s) on %s len=%d: cap=len gives %+v, spare=%d fill=%#x gives %+v", diffField(a, b), class, len(in), a, variants[i].spare, variants[i].fill, b), rp)
 			return
 		}
@@ -534,7 +550,7 @@ func c01ViewSweep(c *core.Ctx, spec viewSpec, k int) {
 
 func c01Run(c *core.Ctx, args []string) {
 	c.Res.Level = "exploration"
-	c.Res.Rule = "(A) every structural frame template (EtherType x source MAC class x IPv4 IHL/TotalLen/protocol, IPv6 payload length/next header, UDP port alphabet, TCP data offsets, ICMP types, ARP hlen/plen, VLAN tags, long frames) truncated at EVERY length 0..L, each in 3 capacity variants (cap=len, +64 spare bytes 0x00, +64 spare bytes 0xff); (B) for each of the 24 exported view types every length 0..min+40 x 3 fills x all strings over {00,01,02,06,7f,80,ff} on the type's control offsets (quick: 3 offsets, thorough: 5), all 256 values at every position of a valid instance and every truncation of it; after IsValid()==nil every zero-argument getter is invoked by reflection. distinct non-trivial = distinct inputs accepted by Parse (A) or passing IsValid (B)"
+	c.Res.Rule = "(A) every structural frame template (EtherType x source MAC class x IPv4 IHL/TotalLen/protocol, IPv6 payload length/next header, UDP port alphabet, TCP data offsets, ICMP types, ARP hlen/plen, VLAN tags, long frames) truncated at EVERY length 0..L, each in 4 capacity variants (cap=len, +64 spare bytes 0x00, +64 spare bytes 0xff, and the rest of the un-truncated frame left in the spare capacity as in a reused read buffer); (B) for each of the 24 exported view types every length 0..min+40 x 3 fills x all strings over {00,01,02,06,7f,80,ff} on the type's control offsets (quick: 3 offsets, thorough: 5), all 256 values at every position of a valid instance and every truncation of it; after IsValid()==nil every zero-argument getter is invoked by reflection. distinct non-trivial = distinct inputs accepted by Parse (A) or passing IsValid (B)"
 	c.Res.Assumptions = []string{"memory safety is observed through recovered panics, pointer-range checks on returned slices and a deterministic loop-iteration budget (non-termination)", "inputs outside the templates/alphabets are not explored"}
 	st := &c01State{}
 	tmpls := frameTemplates(c.Thorough())
@@ -548,7 +564,7 @@ func c01Run(c *core.Ctx, args []string) {
 			if maxN > 200 && n > 120 && n < maxN-8 && !c.Thorough() && n%64 != 0 {
 				continue // long frames: quick tier keeps the first 120 lengths, every 64th and the last 8
 			}
-			c01ParseOne(c, st, t.Name+"#"+itoa(n), t.Frame[:n])
+			c01ParseOne(c, st, t.Name+"#"+itoa(n), t.Frame[:n], t.Frame[n:])
 		}
 		c.Count("templates", 1)
 	}
@@ -577,7 +593,8 @@ func c01Replayer(data []byte) string {
 	c := core.NewCtx("C01", "quick", "replay", 0, 1, "")
 	switch r.Kind {
 	case "parse":
-		c01ParseOne(c, &c01State{}, "replay", in)
+		tail, _ := hex.DecodeString(r.Tail)
+		c01ParseOne(c, &c01State{}, "replay", in, tail)
 	case "view":
 		for _, spec := range viewSpecs() {
 			if spec.name == r.Type {
